@@ -216,7 +216,7 @@ class C16(BaseCheck):
             elif op == 'extend':
                 m = r.choice([1, 2, 3]) if not bigext else r.choice([3, 31, 32, 33, 48])
                 o = {'op': 'extend', 'pairs': [[r.choice(keys), 1000 * (jj + 1) + j] for jj in range(m)],
-                     'as': r.choice(['pairs', 'dict', 'sd', 'gen', 'zip', 'iter'])}
+                     'as': r.choice(['pairs', 'dict', 'sd', 'gen', 'zip', 'iter', 'sd-rev', 'sd-front'])}
                 if r.random() < p_refuse:
                     o['replace'] = False
                 ops.append(o)
@@ -352,6 +352,17 @@ class C16(BaseCheck):
             if 'replace' in o:
                 kw['replace'] = o['replace']
             how = o.get('as')
+            if how in ('sd-rev', 'sd-front'):
+                # a source map whose visible order differs from the order its keys were first stored in
+                src = SortableDict(pairs)
+                if how == 'sd-rev':
+                    src.reverse()
+                elif len(src) > 1:
+                    last = src.at(len(src) - 1)
+                    lastv = src.pop_at(len(src) - 1)
+                    src.add_item(last, lastv, index=0)
+                m.extend(src, **kw)
+                return None
             src = dict(pairs) if how == 'dict' else SortableDict(pairs) if how == 'sd' else \
                 (p for p in pairs) if how == 'gen' else zip([p[0] for p in pairs], [p[1] for p in pairs]) if how == 'zip' else \
                 iter(pairs) if how == 'iter' else pairs       # one-shot iterables are legal arguments too
@@ -397,12 +408,16 @@ class C16(BaseCheck):
             return om.add_outcomes(items, o['k'], v, replace=o.get('replace', True), refused=refuses(v))
         if op == 'extend':
             pairs = [(k, mkval(v)) for k, v in o['pairs']]
-            if o.get('as') in ('dict', 'sd'):
+            if o.get('as') in ('dict', 'sd', 'sd-rev', 'sd-front'):
                 # later duplicates overwrite earlier ones when the source itself is a map
                 d = {}
                 for k, v in pairs:
                     d[k] = v
                 pairs = list(d.items())
+                if o.get('as') == 'sd-rev':
+                    pairs = pairs[::-1]
+                elif o.get('as') == 'sd-front' and len(pairs) > 1:
+                    pairs = [pairs[-1]] + pairs[:-1]
             return om.sequence_outcomes(items, pairs, o.get('replace', True), refuses)
         raise AssertionError(op)
 
